@@ -220,18 +220,22 @@ def SUPPORTED_STRING_ENCODINGS : List String :=
 
 def singleByteEncodings : List String := ["US-ASCII", "ISO-8859-1", "Windows-1252", "UTF-8"]
 
+/-- Value of a hexadecimal digit. -/
+def hexVal (c : Char) : Option Nat :=
+  if c.isDigit then some (c.toNat - 48)
+  else if 'a' ≤ c ∧ c ≤ 'f' then some (c.toNat - 87) else if 'A' ≤ c ∧ c ≤ 'F' then some (c.toNat - 55) else none
+
+def hexPairs : List Char → Option Bytes
+  | [] => some []
+  | [_] => none
+  | a :: b :: rest =>
+    match hexVal a, hexVal b, hexPairs rest with
+    | some x, some y, some r => some (UInt8.ofNat (x * 16 + y) :: r)
+    | _, _, _ => none
+
+/-- `bytes.fromhex(s)` (ASCII whitespace is skipped). -/
 def hexToBytes (s : String) : Option Bytes :=
-  let cs := s.toList.filter (fun c => !(c == ' ' || c == '\t' || c == '\n'))   -- bytes.fromhex skips ASCII whitespace
-  let rec go : List Char → Option Bytes
-    | [] => some []
-    | [_] => none
-    | a :: b :: rest =>
-      let hv := fun (c : Char) => if c.isDigit then some (c.toNat - 48)
-        else if 'a' ≤ c ∧ c ≤ 'f' then some (c.toNat - 87) else if 'A' ≤ c ∧ c ≤ 'F' then some (c.toNat - 55) else none
-      match hv a, hv b, go rest with
-      | some x, some y, some r => some (UInt8.ofNat (x * 16 + y) :: r)
-      | _, _, _ => none
-  go cs
+  hexPairs (s.toList.filter (fun c => !(c == ' ' || c == '\t' || c == '\n')))
 
 /-- `StringDataEncoding.__init__` validation (the constructor arguments are the fields of `StrEnc` plus the raw
     termination-character hex string). -/
